@@ -173,7 +173,27 @@ func genC05(t *rapid.T, maxDepth int) c05Case {
 	c := c05Case{Settings: genSettings(t, hx.SearchBoolSwitches(), 35)}
 	// histories: shuffle-biased so that repeated roots and high clocks occur
 	var p rc.Pos
-	switch rapid.IntRange(0, 3).Draw(t, "src") {
+	special := func(pl hx.Playout) c05Case {
+		c.Play = pl
+		n := rapid.IntRange(1, 3).Draw(t, "searches")
+		for i := 0; i < n; i++ {
+			c.Searches = append(c.Searches, searchStep{AfterPlies: len(pl.Moves), Limits: hx.GenLimits(t, maxDepth)})
+		}
+		return c
+	}
+	switch rapid.IntRange(0, 5).Draw(t, "src") {
+	case 4: // one ply before a forced reply, or the forced-reply position itself
+		fc := hx.GenForced(t)
+		if fc.Pred != "" && rapid.Bool().Draw(t, "fromPred") {
+			return special(hx.Playout{Start: fc.Pred})
+		}
+		return special(hx.Playout{Start: fc.Fen})
+	case 5: // shuffle history (root or tree repeats earlier positions)
+		q := hx.GenStart(t, 8)
+		if pl, ok := hx.GenShuffleHistory(t, q, 3); ok {
+			return special(pl)
+		}
+		p = q
 	case 0:
 		p = hx.GenConstructed(t, 6)
 	case 1:
